@@ -35,6 +35,30 @@ def run(ctx):
     for it in sp_results:
         if it["reply"].get("r") == "ok":
             it["xml_wellformed"] = canon_run.xml_to_json(it["reply"]["v"]) is not None
+    # elements with a fixed number of children given the wrong number: rejected, or repaired into canonical form -- never passed through
+    ar_xml = []
+    kid = lambda i: f"<mi>{'abcd'[i]}</mi>"
+    for tag, good in [("mfrac", 2), ("mroot", 2), ("msub", 2), ("msup", 2), ("munder", 2), ("mover", 2), ("msubsup", 3), ("munderover", 3)]:
+        for k in range(0, 5):
+            if k == good:
+                continue
+            e = f"<{tag}>" + "".join(kid(i) for i in range(k)) + f"</{tag}>"
+            ar_xml += [f"<math>{e}</math>", f"<math><mrow><mi>x</mi><mo>+</mo>{e}<mo>=</mo><mn>1</mn></mrow></math>", f"<math><msup><mi>y</mi>{e}</msup></math>",
+                       f"<math><mfrac><mrow>{e}<mi>z</mi></mrow><mn>2</mn></mfrac></math>"]
+    ar_rep = im.run([{"op": "session"}] + pre + [{"op": "set_mathml", "xml": x} for x in ar_xml], prelude=pre)[1 + len(pre):]
+    ar_results = [{"xml": x, "locale": ["", ""], "reply": r, "lines": pre + [{"op": "set_mathml", "xml": x}], "special": True} for x, r in zip(ar_xml, ar_rep)]
+    creqs, keep = [], []
+    for it in ar_results:
+        if it["reply"].get("r") == "ok":
+            inp, out = canon_run.xml_to_json(it["xml"]), canon_run.xml_to_json(it["reply"]["v"])
+            it["xml_wellformed"] = out is not None
+            if inp is not None and out is not None:
+                creqs.append({"op": "canon_check", "inp": inp, "out": out})
+                keep.append(it)
+    for it, c in zip(keep, mo.run(creqs)):
+        it["check"] = c.get("v") if c.get("r") == "ok" else None
+    ctx.coverage["wrong_arity_inputs"] = {"n": len(ar_xml), "rejected": sum(1 for it in ar_results if it["reply"].get("r") == "err"), "accepted": len(keep)}
+    sp_results = sp_results + ar_results
     n_ok = canon_run.summarize(ctx, results + sp_results)
     oracle_fail, esc_reqs, esc_items = [], [], []
     wf_kinds = {}
